@@ -2,6 +2,8 @@
 
  (C) TLC: PipeRing (as implemented) refines Pipe (contract); Fifo, ParkedOnlyIfBlocked (no lost
      wake-up), DrainBeforeError, query results; Pipe refines PipeAbs; liveness under WF (thorough).
+     Thorough: RingInd.tla - the ring's index arithmetic (slot (rp+i)%S holds byte r+i, pointers reset on
+     drain) as an inductive invariant discharged by Apalache for unbounded totals, S in 1..6.
  (A) transition cover of PipeRing's state graph replayed lock-step through the gate hooks on the
      real pipe (memory and file back ends); return values / content compared per step.
  (B) the event traces of (A) and of free-running goroutines (byte-granular sizes around 1, cap-1,
@@ -81,6 +83,9 @@ def run(tier, seed, replay=None):
             trans += r.generated
             tlc_cmds.append(r.cmd)
             log("[C] %s/%s: %d generated, %d distinct, depth %d, %.1fs" % (mod, cfg, r.generated, r.distinct, r.depth, r.wall))
+        if thorough:
+            # the ring arithmetic for an UNBOUNDED number of wrap-arounds (TLC's totals are bounded): inductive invariant by Apalache
+            tlc_cmds += vlib.apalache_inductive(sc, "RingInd", timeout=1800)
         # ---------------- (A) spec -> code: transition cover replayed lock-step
         r, nodes, edges, inits = vlib.tlc_graph(sc, "PipeRing", "PipeRing_gen.cfg", workers=8,
                                                 fields={"last"}, timeout=1800)
